@@ -1,17 +1,24 @@
 // Harness for C08 (stream-id allocator, internal/streams): runs the REAL IDGenerator
 //
 //   - sequentially on random op sequences (`seq` lines: exact answers compared with the model; `smon` lines:
-//     every answer judged by the abstract id-set specification kept in this harness, runSmon), and
+//     every answer judged by the abstract id-set specification kept in this harness, runSmon), including
+//     histories in which the rotating offset word is preset near the ends of its representation range through
+//     the reflection hook /repo/verif_export_c08b.go (`O…` tokens: "any history"), and
 //
 //   - in lock-step: k goroutines run scripts of GetStream/Clear/Available; the `verif` yield
 //     points (internal/streams/yield_on.go) park a goroutine in front of every atomic operation
-//     and a deterministic scheduler lets exactly one goroutine perform exactly one atomic
-//     operation per scheduling decision (`conc` lines). The observation stream (yield point
-//     reached / value returned per decision, final Available and bitset) is compared with the
-//     Lean small-step model replaying the same schedule.
+//     and a deterministic scheduler lets exactly one goroutine run per scheduling decision (`conc` lines).
+//     The observation stream (yield point reached / values returned per decision, final Available and bitset) is
+//     compared with the Lean small-step model replaying the same schedule. The scheduler assumes nothing
+//     about the yield sequence of the code under test (see "lock-step scheduler" below).
 //
 //     The property monitors are evaluated on the real run of EVERY lock-step scenario, whether the scripts
 //     respect the client protocol (Clear only by the holder, once) or not (`mon` lines; runConcX).
+//
+//     Scenario families: random scripts / schedules (genConc), racing releases of one id (genConcRace),
+//     counter-vs-bitset windows (fixedWindows, genWindow: one goroutine paused in front of each atomic operation
+//     of a Clear / GetStream on a full generator while the others run complete calls), exhaustive enumeration of
+//     schedules (thorough tier).
 //
 // Every op line is a self-contained scenario (see lean/Driver/C08.lean for the grammar).
 package main
@@ -502,7 +509,7 @@ func (ls *lockstep) clear(t, id int) string {
 		ls.rel[id]++
 	case "F":
 	case "crash:negative":
-		ls.rel[id]++ // the bit was cleared and the counter decremented before the panic
+		ls.rel[id]++                          // the bit was cleared and the counter decremented before the panic
 		ls.negPanic = append(ls.negPanic, id) // judged by the scheduler, after the bookkeeping of this decision
 	case "crash:index":
 		if id < ls.g.NumStreams() {
@@ -841,7 +848,6 @@ func runConcX(proto, k int, pre []string, scripts [][]string, sched []int, choos
 	}
 	return strings.Join(obs, " ") + " | " + doAvail(g) + " " + showState(g) + ls.monitor, full, verdict, ls
 }
-
 
 func parseConc(w []string) (proto, k int, pre []string, scripts [][]string, sched []int, ok bool) {
 	// conc <proto> <k> P pre… T ops… T ops… S digits
@@ -1489,10 +1495,10 @@ func emitConcX(out *vh.Out, proto, k int, pre []string, scripts [][]string, sche
 	}
 }
 
-
 // ---------------------------------------------------------------- counter vs bitset windows
 
-// pause: thread t is run until it is parked in front of its atomic operation `y` for the nth time (or done)
+// pause: thread t is run until it is parked in front of its atomic operation `y` for the nth time (or done);
+// y < 0: until it has been given `nth` scheduling decisions (independent of the yield numbering of the code)
 type pause struct{ t, y, nth int }
 
 // windowChoose: first the pauses, in order; then the other threads run to completion INSIDE the windows (one
@@ -1512,6 +1518,12 @@ func windowChoose(pauses []pause, r *vh.Rng) func(ls *lockstep, en []int) int {
 		for i, p := range pauses {
 			paused[p.t] = true
 			if !enabled[p.t] {
+				continue
+			}
+			if p.y < 0 {
+				if ls.nsteps[p.t] < p.nth {
+					return p.t
+				}
 				continue
 			}
 			if ls.nsteps[p.t] != seen[i] {
@@ -1660,10 +1672,18 @@ func genWindow(r *vh.Rng, out *vh.Out) {
 			used[x] = true
 			pausedIDs = append(pausedIDs, x)
 			scripts[t] = []string{fmt.Sprintf("c%d", x)}
-			pauses = append(pauses, pause{t, clearYields[r.Intn(3)], 1})
+			if r.Intn(4) == 0 {
+				pauses = append(pauses, pause{t, -1, r.Intn(4)})
+			} else {
+				pauses = append(pauses, pause{t, clearYields[r.Intn(3)], 1})
+			}
 		} else {
 			scripts[t] = []string{"g"}
-			pauses = append(pauses, pause{t, getYields[r.Intn(5)], 1 + r.Intn(4)/3})
+			if r.Intn(4) == 0 {
+				pauses = append(pauses, pause{t, -1, r.Intn(8)})
+			} else {
+				pauses = append(pauses, pause{t, getYields[r.Intn(5)], 1 + r.Intn(4)/3})
+			}
 		}
 		if r.Intn(3) == 0 {
 			scripts[t] = append(scripts[t], []string{"a", "g", "r"}[r.Intn(3)])
@@ -1996,6 +2016,16 @@ func exhaustive(r *vh.Rng, out *vh.Out) {
 		enumerate(out, 2, 3, pre, [][]string{{"c1"}, {"c1"}, {"g"}}, -1, "exh/3x1/double-release/all", 60000)
 		enumerate(out, 2, 2, pre, [][]string{{"c1", "g"}, {"c1", "c1"}}, -1, "exh/2x2/double-release/all", 60000)
 		enumerate(out, 2, 3, pre, [][]string{{"c1", "a"}, {"c1"}, {"g", "r"}}, 3, "exh/3x2/double-release/pre<=3", 60000)
+	}
+	// counter vs bitset windows: ALL schedules of a release racing acquisitions on a full generator; two releases
+	// and two acquisitions (<= 3 preemptions); the offset CAS of two acquisitions racing across the wrap of the word
+	for _, sc := range [][][]string{{{"c1", "a"}, {"g", "a", "g"}}, {{"c127"}, {"g", "g"}}, {{"c64", "g"}, {"a", "g"}}} {
+		enumerate(out, 2, 2, []string{"G127"}, sc, -1, "exh/2x/window/all", 60000)
+	}
+	enumerate(out, 2, 3, []string{"G127"}, [][]string{{"c1"}, {"c127"}, {"g", "g", "a"}}, 3, "exh/3x/window/pre<=3", 60000)
+	for _, tok := range []string{"Ot0", "Ot1", "Ot2", "Ot3", "Om1", "Om2"} {
+		enumerate(out, 2, 2, []string{tok}, [][]string{{"g"}, {"g"}}, -1, "exh/2x1/offset-wrap/all", 60000)
+		enumerate(out, 2, 2, []string{"G127", "c1", tok}, [][]string{{"g"}, {"g", "a"}}, -1, "exh/2x1/offset-wrap/all", 60000)
 	}
 	// every pair of holes of a full 128-id generator
 	for x := 1; x < 128; x++ {
